@@ -37,8 +37,11 @@ LEVEL_TEXT = ("Machine-checked for the code as committed (theorem code_as_commit
               "and then the built-in rule of the node type is applied (builtin_rule_when_none, "
               "builtin_rule_after_apply_imports); applyImports_spec - xsl:apply-imports instantiates the section 5.6 winner "
               "among the modules the current rule's module imports, also from a named template reached by call-template "
-              "(applyImports_call_template_scope); supporting theorems: table_sorted, locate_mem, routing_sound, imports_order, "
+              "(applyImports_call_template_scope, direct_call_template_scope) and from an xsl:with-param body "
+              "(with_param_caller_context; the last two hold for the implementation only with the two proposed fixes, "
+              "known findings C10-direct-call-template-current-rule and C10-with-param-callee-mode until then); supporting theorems: table_sorted, locate_mem, routing_sound, imports_order, "
               "simplified_stylesheet_is_slash_module, default_priorities_spec, generated_tables_agree, "
+              "locate_and_builtin_tables_agree, "
               "conflicts_within_capacity (the conflicts array/vector of the reporting body is never overrun). The only "
               "hypothesis left is on the abstract pattern matcher (it accepts an alternative only for nodes the "
               "alternative's last step can select; '/' accepts the root). Partial theorems and counterexample theorems "
@@ -49,8 +52,7 @@ LEVEL_NOTE = ("Trusted: Lean kernel (leanchecker in the thorough tier); axioms p
               "counts, getTargetData; bounded by generator coverage) and the regex translator (exits 1 on any unknown shape). "
               "Abstract in the theorems: pattern matching (am) - the harness evaluates each alternative's defining expression "
               "with Xalan's own XPath evaluator, agreement of patterns and expressions is property C09; priorities are "
-              "integers in the model (finite values only; -infinity and non-numbers are covered by fixed probes: known "
-              "finding C10-priority-negative-overflow, fix proposed). Modelled, not verified: SAX stylesheet construction "
+              "integers in the model (finite values only; -infinity and non-numbers are covered by fixed probes). Modelled, not verified: SAX stylesheet construction "
               "(StylesheetHandler include/import processing), the execution-context stacks behind current template / "
               "invoker, rule bodies other than marker / call-template / apply-imports.")
 DESIGN_REF = "DESIGN.md section 5, C10; design/C10.md"
@@ -59,6 +61,7 @@ P = "XalanModel.Props.C10."
 THEOREMS = [P + n for n in (
     "default_priorities_spec",
     "generated_tables_agree",
+    "locate_and_builtin_tables_agree",
     "addToList_sorted",
     "table_sorted",
     "locate_mem",
@@ -87,6 +90,8 @@ THEOREMS = [P + n for n in (
     "wrapperless_counterexample",
     "applyImports_scope",
     "applyImports_call_template_scope",
+    "with_param_caller_context",
+    "direct_call_template_scope",
     "builtin_rule_when_none",
     "builtin_rule_after_apply_imports",
 )]
@@ -368,6 +373,10 @@ def attribute(env, case, res, key, path, q):
 
     if any(t.get("call") for _, t, _ in G.all_templates(case["main"])):
         experiments.append(("call-template-current-rule", G.inline_calls, False))
+    if any(t.get("bare") or (t.get("wp") or {}).get("call") for _, t, _ in G.all_templates(case["main"])):
+        experiments.append(("direct-call-template-current-rule", G.undirect, False))
+    if any(t.get("wp") for _, t, _ in G.all_templates(case["main"])):
+        experiments.append(("with-param-callee-mode", G.wp_via_variable, False))
     if res["nodes"][key[0]]["kind"] == "rt" and any(
             len(t["alts"]) > 1 and any(G.ALTS[a][1] == "node" for a in t["alts"]) for _, t, _ in G.all_templates(case["main"])):
         # XPath::stepPattern accepts the root for a final node() step; only a union can bring such an alternative to the
@@ -388,15 +397,23 @@ def attribute(env, case, res, key, path, q):
             return False
         return (q2["rq"] if path == "q" else q2["rr"]) == q["sp"]
 
-    if not experiments or not run(experiments):
+    if not experiments:
         return None
-    cur = list(experiments)
-    for e in list(cur):
-        trial = [x for x in cur if x is not e]
-        if trial and run(trial):
-            cur = trial
-    names = [n for n, _, _ in cur]
-    return names
+    # smallest explaining set of rewrites first (a rewrite that is not needed may change the order of the output, e.g.
+    # inlining a call in front of an apply-templates, so the full set is only the last resort)
+    import itertools
+    for size in (1, 2, 3):
+        for subset in itertools.combinations(experiments, size):
+            if run(list(subset)):
+                return [n for n, _, _ in subset]
+    if len(experiments) > 3 and run(experiments):
+        cur = list(experiments)
+        for e in list(cur):
+            trial = [x for x in cur if x is not e]
+            if trial and run(trial):
+                cur = trial
+        return [n for n, _, _ in cur]
+    return None
 
 
 # ---------------------------------------------------------------------------------------------- shrinking
@@ -491,9 +508,12 @@ def describe(case):
         if t.get("named"):
             parts.append("N%d@%s[name=n%d%s]" % (t["id"], ".".join(map(str, path)), t["id"], " apply-imports" if t["ai"] else ""))
             continue
-        parts.append("T%d@%s[%s%s%s%s%s]" % (t["id"], ".".join(map(str, path)), G.pattern_text(t),
-                                          " call=n%d" % t["call"] if t.get("call") else "",
-                                          " mode=m%d" % t["mode"] if t["mode"] else "",
+        parts.append("T%d@%s[%s%s%s%s%s]" % (t["id"], ".".join(map(str, path)), G.pattern_text(t) + (" BARE" if t.get("bare") else ""),
+                                          (" call=n%d" % t["call"] if t.get("call") else "") +
+                                          (" with-param(mode=m%d,%s)" % (t["wp"]["mode"], "call n%d" % t["wp"]["call"]
+                                                                        if t["wp"].get("call") else "apply-imports")
+                                           if t.get("wp") else ""),
+                                          " mode=%s%s" % (G.MODE_TEXT[t["mode"]], "{p=u2}" if (rb and t["mode"] == 2) else "") if t["mode"] else "",
                                           " prio=%s" % G.fmt_prio(t["prio"]) if t["prio"] is not None else "",
                                           " apply-imports" if t["ai"] else ""))
     return " ; ".join(parts) + " ;; doc=" + G.doc_xml(case["doc"])
